@@ -11,7 +11,6 @@ import (
 	"github.com/cedar-policy/cedar-go/types"
 	"github.com/cedar-policy/cedar-go/x/exp/ast"
 	"github.com/cedar-policy/cedar-go/x/exp/eval"
-
 )
 
 // op "hier": {n, par: [[parents of 1]..], present: [..], sets: [[..]..]} -> vector of
